@@ -46,6 +46,11 @@ FAMILIES = {
               ("Gen_Order", "Gen_Order.cfg", "sim", {"quick": dict(num=200, depth=5, consts={}, seeds=1),
                                                     "thorough": dict(num=2000, depth=8, consts={}, seeds=3)})],
         replays=[dict(mode="instrswap", controls="", swap=True)]),
+    "PARSE": dict(
+        mc=("MC_Parse", "MC_Parse.cfg", {"quick": {"ParseSet": '"small"', "NRandom": "20"}, "thorough": {"ParseSet": '"full"', "NRandom": "400"}}),
+        gens=[("Gen_Parse", "Gen_Parse.cfg", "bfs", {"quick": dict(depth=1, consts={"ParseSet": '"small"', "NRandom": "20"}),
+                                                   "thorough": dict(depth=1, consts={"ParseSet": '"full"', "NRandom": "400"})})],
+        replays=[dict(mode="app", controls="", swap=False)]),
     "FEES": dict(
         mc=("MC_Fees", "MC_Fees.cfg", {"quick": {"FeeSet": '"small"'}, "thorough": {"FeeSet": '"full"'}}),
         shards={"quick": [{"Amounts": "{%d}" % a} for a in (1, 3, 10000, 10001, 199999)],
@@ -69,6 +74,8 @@ PROPS = {
                 rule="FAULT: every (payload shape x armed fault set x clean/dusty state) is one execution with fault wrappers around the real dependencies; FUNDS: naturally occurring failures; non-trivial = a reception in which an armed fault actually fired or the transfer was refused; distinct = distinct (pre-state, input incl. fault set)"),
     "C06": dict(families=["ORDER"], groups=["ack", "actions", "req"], level="model_checking",
                 rule="non-trivial = a packet whose payload carries actions (executed with recording decorators around the fee controller and the swap test controller) or repeats an action id; distinct = distinct (pre-state, input)"),
+    "C14": dict(families=["PARSE"], groups=["ack"], level="exploration",
+                rule="TLC enumerates the finite grid templates x JSON paths x mutations completely; unstructured classes (random bytes as packet data, random memo bytes, random JSON under the real field names, extreme amounts/denoms/attribute values) are seeded-random representatives; each is one packet through the full app under recover(); non-trivial = every such packet; distinct = distinct abstract input"),
     "C04": dict(families=["FEES"], groups=["ack", "bal"], level="model_checking", exhaustive=True,
                 rule="every grid point (amount x fee-entry list) is one packet through the real application; non-trivial = the payload carries a fee action that parses; distinct = distinct abstract input"),
     "C05": dict(families=["REQ"], groups=["ack", "req"], level="model_checking", exhaustive=True,
@@ -305,7 +312,7 @@ def check(prop, tier):
         log("  at %s step %d: %s -> %s" % (r["b"], r["i"], in_summary(e["in"]), e["res"]["ack"]))
     log("%s %s: %d observed steps evaluated, %d distinct non-trivial, %d behaviours accepted, %d new violations, %.0fs" % (
         prop, tier, report["evaluations"], nontriv, report["traces_validated"], len(all_viol), time.time() - t0))
-    if tier == "quick":
+    if tier == "quick" and not os.environ.get("VERIF_KEEP"):
         shutil.rmtree(wd, ignore_errors=True)
     return 1 if all_viol else 0
 
